@@ -46,6 +46,16 @@ def one(ctx, A, Pc, tol, kind, meta):
     if len(ph) != d + 1 or not P.finite(ph):
         ctx.violation("c02:shape", "returned %d phases for degree %d or non-finite phases" % (len(ph), d), replay)
         return out
+    if tol < 1e-13:
+        # tolerance 0 (legal: "accept only an exact match") leaves no budget a binary64 result could be certified against;
+        # such a return is judged by a PROVEN LOWER bound of the deviation instead: beyond rounding level means the
+        # tolerance was not applied
+        ctx.count("tolerance:zero-or-below-rounding:returned")
+        w = witness(drv, Pc, tol, ph, slack=Fraction(d + 1, 10 ** 12))
+        if w is not None:
+            replay.update({"witness": w})
+            ctx.violation("c02:response:zero-tolerance:" + kind, "phases returned under tolerance %r realise a function that differs from P by more than rounding" % tol, replay)
+        return out
     line = drv.ask("valid.c02 %d %d %s %s %s %s" % (P.BITS, P.DEPTH, rs(F(tol)), rl(F(z.real) for z in Pc),
                                                     rl(F(z.imag) for z in Pc), rl(F(x) for x in ph)))
     v = P.vparse(line)
@@ -61,7 +71,7 @@ def one(ctx, A, Pc, tol, kind, meta):
     return out
 
 
-def witness(drv, Pc, tol, ph):
+def witness(drv, Pc, tol, ph, slack=Fraction(0)):
     grid = np.cos(np.linspace(0, math.pi, 601))
     poly = np.polynomial.Polynomial(np.array(Pc))
     best, besta = -1.0, None
@@ -80,7 +90,7 @@ def witness(drv, Pc, tol, ph):
     tr = sum((F(z.real) * a ** k for k, z in enumerate(Pc)), Fraction(0))
     ti = sum((F(z.imag) * a ** k for k, z in enumerate(Pc)), Fraction(0))
     low = max(abs(mr - tr), abs(mi - ti)) - pr(err)
-    if low > 100 * F(tol):
+    if low > 100 * F(tol) + slack:
         return {"a": str(a), "defined_response": [core.fl(mr), core.fl(mi)], "target": [core.fl(tr), core.fl(ti)],
                 "proven_lower_bound_of_difference": core.fl(low), "allowed": core.fl(100 * F(tol))}
     return None
@@ -137,6 +147,17 @@ def run(tier, seed):
         n = int(rng.integers(10, 21))
         ph, style = P.corner_phases(rng, n, style="generic")
         one(ctx, A, list(P.corner_poly(ph)), float(rng.choice([1e-3, 1e-3, 1e-4])), "achievable/accuracy-limit", {"style": style, "source_phases": ph})
+    # tolerance 0 is a legal setting (and a falsy one): achievable corners and perturbations of them at 1e-9 .. 1e-6, where
+    # an answer is only right if it is exact to rounding
+    for _ in range(60 if tier == "quick" else 600):
+        n = int(rng.integers(1, 9))
+        ph, style = P.corner_phases(rng, n, style=None)
+        Pc = np.array(P.corner_poly(ph))
+        kind = "achievable"
+        if rng.random() < 0.7:
+            kind = "perturbed"
+            Pc = Pc + (rng.normal(size=len(Pc)) + 1j * rng.normal(size=len(Pc))) * 10.0 ** float(rng.uniform(-9, -6)) * (np.abs(Pc) > 0)
+        one(ctx, A, list(Pc), (0.0 if rng.random() < 0.7 else 0), kind + "/zero-tolerance", {"style": style, "source_phases": ph})
     ctx.assumptions = ["which inputs the floating-point pipeline completes on is explored; every RETURNED result is judged by the proven validator"]
     return ctx.finish(
         rule="complex definite-parity P of degree 1..20: corners <0|U_x|0> of phase lists in 6 styles (generic, real, imaginary, "
